@@ -82,3 +82,15 @@ pub fn inputs(_seed: u64, open: &[String]) -> impl Iterator<Item = Value> {
     }
     v.into_iter()
 }
+
+/// C04 (second half of "merged fields"): the sub-selections of fields sharing a response key are merged, at every depth and through lists
+pub fn merge_inputs(_seed: u64) -> impl Iterator<Item = Value> {
+    vec![
+        json!({"query": "{ dog { name } num dog { bark } }", "data": "{\"dog\":{\"name\":\"rex\",\"bark\":3},\"num\":7}"}),
+        json!({"query": "{ owners { pet { name } } owners { pet { bark } } }", "data": "{\"owners\":[{\"pet\":{\"name\":\"rex\",\"bark\":3}},{\"pet\":{\"name\":\"rex\",\"bark\":3}}]}"}),
+        json!({"query": "{ owners { name pets { name } } owners { pets { bark } name } }", "data": "{\"owners\":[{\"name\":\"ann\",\"pets\":[{\"name\":\"rex\",\"bark\":3},{\"name\":\"fido\",\"bark\":1}]},{\"name\":\"bob\",\"pets\":[{\"name\":\"rex\",\"bark\":3},{\"name\":\"fido\",\"bark\":1}]}]}"}),
+        json!({"query": "{ owner { pet { name } } ... on Query { owner { pet { bark } name } } }", "data": "{\"owner\":{\"pet\":{\"name\":\"rex\",\"bark\":3},\"name\":\"ann\"}}"}),
+        json!({"query": "{ owner { pets { name } } ...F } fragment F on Query { owner { pets { bark } } }", "data": "{\"owner\":{\"pets\":[{\"name\":\"rex\",\"bark\":3},{\"name\":\"fido\",\"bark\":1}]}}"}),
+        json!({"query": "{ o: owners { p: pet { name } } o: owners { p: pet { b: bark } p: pet { name } } }", "data": "{\"o\":[{\"p\":{\"name\":\"rex\",\"b\":3}},{\"p\":{\"name\":\"rex\",\"b\":3}}]}"}),
+    ].into_iter()
+}
